@@ -652,7 +652,16 @@ func (cr *checkRun) validatePredictions(seed int64) (int, []string) {
 			continue
 		}
 		if strings.Join(want, "\n") != strings.Join(o.Emitted, "\n") {
-			mm = append(mm, fmt.Sprintf("%s: predicted %q native %q input %v", pk.job.Name, trunc(strings.Join(want, "|"), 300), trunc(strings.Join(o.Emitted, "|"), 300), cases[i].Model.Lines))
+			a, b := strings.Join(want, "|"), strings.Join(o.Emitted, "|")
+			d := 0
+			for d < len(a) && d < len(b) && a[d] == b[d] {
+				d++
+			}
+			lo := d - 60
+			if lo < 0 {
+				lo = 0
+			}
+			mm = append(mm, fmt.Sprintf("%s: %d/%d emitted; first difference at %d: predicted ...%q native ...%q; ints %v input %v", pk.job.Name, len(want), len(o.Emitted), d, trunc(a[lo:], 200), trunc(b[lo:], 200), cases[i].Model.Ints, cases[i].Model.Lines))
 		}
 	}
 	return n, mm
